@@ -37,7 +37,7 @@ ASSUMPTIONS = [
 
 FAULTS = ["iadd_other_bins", "iadd_other_dim", "iadd_scalar", "iadd_list", "iadd_str", "isub_larger", "isub_slightly_larger", "isub_none", "imul_negative", "imul_str", "imul_list",
           "imul_hist", "idiv_zero", "idiv_negative", "idiv_str", "idiv_hist", "fill_wrong_shape", "fill_weight_str", "fill_n_wrong_shape",
-          "fill_n_weights_length", "fill_n_weights_str", "fill_n_growth_bad_weights", "fill_n_infinite", "dtype_invalid", "dtype_lossy", "merge_bad_amount", "merge_bad_axis", "merge_gap", "index_bad",
+          "fill_n_weights_length", "fill_n_weights_after_nan", "fill_n_weights_str", "fill_n_growth_bad_weights", "fill_n_infinite", "dtype_invalid", "dtype_lossy", "merge_bad_amount", "merge_bad_axis", "merge_gap", "index_bad",
           "set_frequencies_shape", "set_frequencies_negative", "set_errors2_shape", "set_errors2_negative", "projection_bad", "collection_mismatch",
           "normalize_empty_copy"]
 
@@ -246,6 +246,16 @@ def check_history(case, ctx: Ctx):
             pts = [point([0.3, 0.3, 0.3]), point([0.6, 0.6, 0.6])]
             arr = np.array(pts, dtype=float).reshape(2, d) if d > 1 else np.array(pts, dtype=float)
             attempt(h.fill_n, arr, weights=np.array([1.0, 2.0, 3.0]))
+        elif name == "fill_n_weights_after_nan":
+            # one weight too few, which happens to be the number of rows that survive the NaN filter
+            pts = [point([0.3, 0.3, 0.3]), point([0.6, 0.6, 0.6]), point([0.4, 0.4, 0.4])]
+            arr = np.array(pts, dtype=float).reshape(3, d) if d > 1 else np.array(pts, dtype=float)
+            arr = arr.copy()
+            if d > 1:
+                arr[1, 0] = np.nan
+            else:
+                arr[1] = np.nan
+            attempt(h.fill_n, arr, weights=np.array([1.0, 2.0]))
         elif name == "fill_n_growth_bad_weights":
             # values that need new bins (adaptive) together with invalid weights, in one call
             pts = [point([1.7, 1.7, 1.7]), point([-0.6, -0.6, -0.6]), point([0.5, 0.5, 0.5])]
@@ -341,7 +351,8 @@ def check_history(case, ctx: Ctx):
             # operations the statement says are refused
             if name in ("isub_larger", "isub_slightly_larger", "imul_negative", "idiv_negative", "iadd_other_dim", "iadd_scalar", "iadd_list", "iadd_str", "imul_list", "imul_hist",
                         "idiv_hist", "set_frequencies_negative", "set_errors2_negative", "set_frequencies_shape", "set_errors2_shape", "iadd_other_bins",
-                        "merge_gap", "merge_bad_axis", "index_bad", "projection_bad", "collection_mismatch", "dtype_invalid", "fill_n_wrong_shape", "fill_n_weights_length"):
+                        "merge_gap", "merge_bad_axis", "index_bad", "projection_bad", "collection_mismatch", "dtype_invalid", "fill_n_wrong_shape", "fill_n_weights_length",
+                        "fill_n_weights_after_nan"):
                 require(raised is not None, "fault_accepted", f"{what}: the invalid call was accepted")
         else:
             if raised is None:
